@@ -18,6 +18,7 @@ def showReq (r : Req) : String :=
   | .dispatch => s!"D:{r.sent}"
   | .waitResponse => s!"W:{r.sent}"
   | .error e => s!"E{e}:{r.sent}"
+  | .received => s!"R:{r.sent}"
   | .other => s!"X:{r.sent}"
 
 def joinOr (l : List String) : String := if l.isEmpty then "-" else "|".intercalate l
